@@ -527,6 +527,29 @@ func Supervise(c *SuperCfg) int {
 	return exit
 }
 
+// faultProbes are the probes that count an injected fault or disturbance (the engines K, D
+// and S count theirs in Faults directly): they are listed under faults_injected as well.
+var faultProbes = []string{"index_removed", "process_kill", "publish_refused_oversized", "multi_helper_interrupted",
+	"multi_helper_context_cancelled", "offline_migrate1", "offline_migrate2", "offline_recover", "offline_check",
+	"index_loss_trial", "foreign_segment", "open_failed_missing_dir", "open_failed_corrupt_index", "open_conflict",
+	"ro_damage_probe_opened", "ro_damage_probe_refused", "ro_leftover_probe_opened", "ro_leftover_probe_refused",
+	"clock_back", "reopen", "readonly_peek", "gc"}
+
+func withFaultProbes(faults, probes map[string]int) map[string]int {
+	out := map[string]int{}
+	for k, v := range faults {
+		out[k] = v
+	}
+	for _, k := range faultProbes {
+		if v := probes[k]; v > 0 {
+			if _, dup := out[k]; !dup {
+				out[k] = v
+			}
+		}
+	}
+	return out
+}
+
 func matchKnown(known []knownFinding, prop, sig string) *knownFinding {
 	for i := range known {
 		if known[i].Prop == prop && known[i].Sig == sig {
@@ -644,7 +667,7 @@ func (c *SuperCfg) writeEvidence(a *agg, def *PropDef, runWall, wall float64, nv
 		"runs_per_hour":        int64(float64(a.runs) / runWall * 3600),
 		"steps":                a.steps,
 		"simulated_seconds":    float64(a.simUS) / 1e6,
-		"faults_injected":      a.faults,
+		"faults_injected":      withFaultProbes(a.faults, a.probes),
 		"probes":               a.probes,
 		"probes_stuck_at_zero": zero,
 		"known_findings_hit":   knownHits,
